@@ -219,7 +219,9 @@ impl Pair {
                 let held = { self.p.chain.read().await.blocks.contains_key(&f.hash) };
                 if held && b.store.has(&f.hash) {
                     let s = b.store.get(&f.hash);
-                    if s.id < self.last_completed_id {
+                    // a block handed to the node while a lower one is still on its way (or after a
+                    // higher one) reaches add_block before its parent
+                    if s.id < self.last_completed_id || self.fetches.iter().any(|o| o.block_id < f.block_id) {
                         self.out_of_order_completions += 1;
                     }
                     self.last_completed_id = self.last_completed_id.max(s.id);
